@@ -26,7 +26,8 @@ CONSTANTS MaxReq,            \* 1024
           Uploads,           \* subset of BOOLEAN: is an upload handler installed
           DataAfterClose,    \* BOOLEAN: the PyOpenSSL pump may deliver plaintext after the inner close
           \* deviations (behaviour of the tree before the fix: commits; all FALSE = the design)
-          DevNoDispatchedFlag, DevTitanSkipsChain, DevSilentDeny, DevRawResponse
+          DevNoDispatchedFlag, DevTitanSkipsChain, DevSilentDeny, DevRawResponse,
+          DevVerbatimRefusal      \* deviation (tree before its fix): whatever text a refusing component hands back is written as it is
 
 VARIABLES cfg,        \* [s: stream, mw: chain, h: handler behaviour, hasUpload]  chosen once
           delivered,  \* bytes handed to data_received so far
@@ -172,6 +173,10 @@ MwStep ==
        [] o = "denyNoText" ->
             /\ pending' = "none" /\ calls' = counted /\ UNCHANGED mwIdx
             /\ IF DevSilentDeny THEN UNCHANGED <<wire, tp, torn>> ELSE Respond(R(40))
+       [] o = "denyMalformed" ->     \* a refusal whose text is not a response header (no status, status 99, two lines, no CRLF, 3000 bytes):
+                                     \* the component refused - the client gets a well-formed refusal, not that text
+            /\ pending' = "none" /\ calls' = counted /\ UNCHANGED mwIdx
+            /\ Respond(IF DevVerbatimRefusal THEN [st |-> 99, body |-> FALSE, metaOK |-> FALSE] ELSE R(40))
        [] o = "raise" ->
             /\ Respond(R(40)) /\ pending' = "none" /\ calls' = counted /\ UNCHANGED mwIdx
 
